@@ -62,6 +62,7 @@ class Conc:
         self.done_guards = []
         self.windows = None
         self.changed = False
+        self.change_log = []
         self.nd_mark = 0
         self.written = {}
 
@@ -95,6 +96,40 @@ class Conc:
             return (key[0], key[1], key[2] + (step,))
         return key + ((step,),)
 
+    def _bkey(self, bd):
+        """stable structural key of closure bindings (object identities differ between recording passes)"""
+        out = []
+        for b in bd:
+            if isinstance(b, Ptr):
+                out.append(("p",) + tuple(sorted((None if r is None else r.key()) for g, r in b.alts if g is not False)))
+            elif isinstance(b, bool):
+                out.append(("b", b))
+            elif isinstance(b, int):
+                out.append(("i", b))
+            elif isinstance(b, FuncV):
+                out.append(("f",) + tuple((f if not isinstance(f, tuple) else f[:2]) for g, f, bb in b.alts))
+            else:
+                out.append((type(b).__name__,))
+        return tuple(out)
+
+    def _beq(self, b1, b2, missing):
+        if len(b1) != len(b2):
+            return False
+        conds = []
+        for x, y in zip(b1, b2):
+            try:
+                conds.append(self.veq(x, y, missing))
+            except Unsupported:
+                pass
+        return b_and(*conds)
+
+    def _chg(self, what=""):
+        self.changed = True
+        if os.environ.get("VERIF_CONC_DEBUG"):
+            import traceback
+            fr = traceback.extract_stack(limit=3)[0]
+            self.change_log.append("%s:%d %s" % (fr.name, fr.lineno, what))
+
     def cinfo(self, key):
         c = self.classes.get(key)
         if c is None:
@@ -109,27 +144,27 @@ class Conc:
             for g, r in v.alts:
                 if r is not None and r.key() not in c["refs"]:
                     c["refs"][r.key()] = r
-                    self.changed = True
+                    self._chg("ref %s in %s" % (r, key))
         elif isinstance(v, IfaceV):
             for g, t, p in v.alts:
                 if t is None:
                     continue
                 if t not in c["ifaces"]:
                     c["ifaces"][t] = True
-                    self.changed = True
+                    self._chg()
                 self.note_value(key + (("dyn", t),), p)
         elif isinstance(v, FuncV):
             for g, f, bd in v.alts:
                 if f is None:
                     continue
-                k = (f if not isinstance(f, tuple) else f[:2], id(bd))
+                k = (f if not isinstance(f, tuple) else f[:2], self._bkey(bd))
                 if k not in c["funcs"]:
                     c["funcs"][k] = (f, bd)
-                    self.changed = True
+                    self._chg("func %s in %s" % (k, key))
         elif isinstance(v, StrV):
             if len(v.chars) > c["strcap"]:
                 c["strcap"] = len(v.chars)
-                self.changed = True
+                self._chg("strcap %d in %s" % (len(v.chars), key))
         elif isinstance(v, StructV):
             for i, f in enumerate(v.fields):
                 self.note_value(self._ext(key, i), f)
@@ -141,11 +176,16 @@ class Conc:
                 self.note_value(key + (("t", i),), f)
         elif isinstance(v, SliceV):
             for g, r in v.arr.alts:
-                if r is not None and r.key() not in c["arrs"]:
+                if r is None:
+                    continue
+                if r.key() not in c["arrs"]:
                     c["arrs"][r.key()] = r
-                    self.changed = True
-                    arr = self.ex.get_path(self.ex.heap[r.obj].val, r.path)
-                    c["maxlen"] = max(c["maxlen"], len(arr.elems))
+                    self._chg("arr %s" % (r,))
+                arr = self.ex.get_path(self.ex.heap[r.obj].val, r.path)
+                if len(arr.elems) > c["maxlen"]:
+                    # the same (stably keyed) backing array can be re-allocated larger in a later pass
+                    c["maxlen"] = len(arr.elems)
+                    self._chg("maxlen %d" % len(arr.elems))
 
     def fresh_shared(self, tid, key, name):
         """fresh symbolic value for a read of a shared cell of static type tid, ranging over the class candidates"""
@@ -211,11 +251,14 @@ class Conc:
             alts = [(int_cmp("==", sel, 0, 8, False), None)]
             for i, r in enumerate(arrs):
                 alts.append((int_cmp("==", sel, i + 1, 8, False), r))
-            m = c["maxlen"]
+            m = min(c["maxlen"], ex.opts.get("conc_slice_max", 3))
+            if c["maxlen"] > m:
+                ex.note("bounds", "slices read from shared cells are assumed to hold at most %d elements" % m)
             off, ln, cp = ex.fresh_int(name + ".off", 64), ex.fresh_int(name + ".len", 64), ex.fresh_int(name + ".cap", 64)
-            for v in (off, ln, cp):
-                ex.assume(b_and(z3.BitVecVal(0, 64) <= v, v <= z3.BitVecVal(m, 64)), True, "")
-                VAR_BOUNDS[v.decl().name()] = (0, m)
+            # offset and length are bounded by the (possibly reduced) element bound; the capacity only by the physical size
+            for v, hi in ((off, c["maxlen"]), (ln, m), (cp, c["maxlen"])):
+                ex.assume(b_and(z3.BitVecVal(0, 64) <= v, v <= z3.BitVecVal(hi, 64)), True, "")
+                VAR_BOUNDS[v.decl().name()] = (0, hi)
             return SliceV(Ptr(alts), off, ln, cp)
         raise Unsupported("fresh_shared of kind " + k)
 
@@ -248,11 +291,12 @@ class Conc:
                 for g2, f2, b2 in actual.alts:
                     if f1 is None and f2 is None:
                         res.append(b_and(g1, g2))
-                    elif f1 is not None and f2 is not None and f1 == f2 and b1 is b2:
-                        res.append(b_and(g1, g2))
-            have = {(f if not isinstance(f, tuple) else f[:2], id(b)) for g, f, b in rv.alts if f is not None}
+                    elif f1 is not None and f2 is not None and f1 == f2 and self._bkey(b1) == self._bkey(b2):
+                        sub = []
+                        res.append(b_and(g1, g2, self._beq(b1, b2, sub)))
+            have = {(f if not isinstance(f, tuple) else f[:2], self._bkey(b)) for g, f, b in rv.alts if f is not None}
             for g2, f2, b2 in actual.alts:
-                if f2 is not None and (f2 if not isinstance(f2, tuple) else f2[:2], id(b2)) not in have and g2 is not False:
+                if f2 is not None and (f2 if not isinstance(f2, tuple) else f2[:2], self._bkey(b2)) not in have and g2 is not False:
                     missing.append((g2, "func", (f2, b2)))
             return b_or(*res)
         if isinstance(rv, IfaceV) and isinstance(actual, IfaceV):
@@ -279,6 +323,15 @@ class Conc:
         if isinstance(rv, TupleV):
             return b_and(*[self.veq(a, b, missing) for a, b in zip(rv.elems, actual.elems)])
         if isinstance(rv, SliceV) and isinstance(actual, SliceV):
+            # the fresh offset/length/capacity are bounded: a heap value beyond the bound must be reported, not pruned
+            for nm, fv, av in (("off", rv.off, actual.off), ("len", rv.len, actual.len), ("cap", rv.cap, actual.cap)):
+                if isinstance(fv, int):
+                    continue
+                b = VAR_BOUNDS.get(fv.decl().name()) if z3.is_const(fv) else None
+                if b is not None:
+                    over = int_cmp(">", av, b[1], 64, True)
+                    if over is not False:
+                        missing.append((over, "slice-" + nm + "-bound", b[1]))
             return b_and(self.veq(rv.arr, actual.arr, missing), int_cmp("==", rv.off, actual.off, 64, True),
                          int_cmp("==", rv.len, actual.len, 64, True), int_cmp("==", rv.cap, actual.cap, 64, True))
         if isinstance(rv, StrV) and isinstance(actual, StrV):
@@ -304,7 +357,7 @@ class Conc:
                 for g, r in x.alts:
                     if r is not None and r.obj not in self.shared_ids:
                         self.shared_ids.add(r.obj)
-                        self.changed = True
+                        self._chg()
                         o = ex.heap[r.obj]
                         if o.kind in ("var", "array"):
                             stack.append(o.val)
@@ -346,7 +399,7 @@ class Conc:
         ws = self.written.setdefault(o.id, set())
         if path not in ws:
             ws.add(path)
-            self.changed = True
+            self._chg()
 
     def add_event(self, guard, apply, desc, pos=None, visible=False, same_op=False, enabled=None):
         th = self.recording
@@ -707,11 +760,13 @@ class Conc:
             o = self.orig_alloc(kind, tid, val, site)
             o.owner = th.idx
             self.thread_objs[key] = o
-            self.changed = True
+            self._chg()
         else:
             o.val = val
             o.kind = kind
             o.tid = tid
+        # the value an object is born with (e.g. the backing array built by append) must survive the reset before replay
+        o.meta["init_val"] = val
         return o
 
     # --- maps (shared): lookups / updates are deferred whole operations
@@ -770,7 +825,7 @@ class Conc:
             return
         if kid not in ks:
             ks[kid] = k
-            self.changed = True
+            self._chg()
 
     def map_range(self, m, guard, kt, et):
         """range over a shared map while recording: one atomic snapshot event over the candidate keys of the map class"""
@@ -1045,8 +1100,9 @@ class Conc:
         while True:
             passes += 1
             if passes > ex.opts.get("conc_passes", 8):
-                raise Unsupported("candidate/escape fixpoint did not converge")
+                raise Unsupported("candidate/escape fixpoint did not converge %s" % (self.change_log[-12:],))
             self.changed = False
+            self.change_log.append("--pass %d" % passes)
             # reset
             for o, v in saved:
                 o.val = v
@@ -1070,6 +1126,8 @@ class Conc:
                 th.nseg = 0
                 self.recording = th
                 ex.cur_thread = th.idx
+                # segment 0 always exists, so that facts about the very beginning of a thread are conditional on it starting
+                self.add_event(guard, lambda active: None, "thread start", None, visible=True)
                 ob0 = len(ex.obligations)
                 rv, rg = ex.call_funcv(None, th.fv, [], guard, "thread " + th.name, {"sig": "func()"})
                 th.ret_guard = rg
@@ -1081,11 +1139,20 @@ class Conc:
             if not self.changed:
                 break
         self.passes = passes
+        if os.environ.get("VERIF_CONC_DEBUG"):
+            print("CONC passes=%d shared=%d thread_objs=%d" % (passes, len(self.shared_ids), len(self.thread_objs)))
+            for k, c in self.classes.items():
+                if c["refs"] or c["funcs"] or c["ifaces"] or c["arrs"]:
+                    print("  class", k, "refs", sorted(c["refs"].keys()), "funcs", len(c["funcs"]), "ifaces", sorted(c["ifaces"].keys()), "arrs", sorted(c["arrs"].keys()))
+            for key, o in self.thread_objs.items():
+                print("  tobj", key, "o%d" % o.id, o.kind, "shared" if o.id in self.shared_ids else "local")
         # ---------------- replay
         for o, v in saved:
             o.val = v
         for key, o in self.thread_objs.items():
-            if o.kind in ("var", "array"):
+            if "init_val" in o.meta and o.meta["init_val"] is not None:
+                o.val = o.meta["init_val"]
+            elif o.kind in ("var", "array"):
                 o.val = ex.zero(o.tid)
             elif o.kind == "map":
                 o.val = MapVal([])
